@@ -465,7 +465,7 @@ Proof.
   - destruct Pn as [Ps _].
     assert (H1 : allc nqb (id ++ ":") = true) by cls.
     assert (H3 : allc nqb (":" ++ ty ++ " ") = true) by cls.
-    destruct (nqb_atomic _ H1) as [A1 A2]. destruct (quoted_atomic ["{"; "}"]%char s Ps eq_refl) as [B1 B2].
+    destruct (nqb_atomic _ H1) as [A1 A2]. destruct (quoted_atomic_name ["{"; "}"]%char s Ps eq_refl) as [B1 B2].
     destruct (nqb_atomic _ H3) as [C1 C2].
     unfold head_text, qname.
     replace (id ++ ":" ++ (dq ++ s ++ dq) ++ ":" ++ ty ++ " ") with ((id ++ ":") ++ (dq ++ s ++ dq) ++ (":" ++ ty ++ " "))
@@ -712,7 +712,7 @@ Proof.
   destruct nm as [s|].
   - assert (H1 : allc nqb (id ++ ":") = true) by cls.
     assert (H3 : allc nqb (":" ++ ty ++ " ") = true) by cls.
-    destruct (nqb_atomic _ H1) as [A1 A2]. destruct (quoted_atomic ["{"; "}"]%char s Pn eq_refl) as [B1 B2].
+    destruct (nqb_atomic _ H1) as [A1 A2]. destruct (quoted_atomic_name ["{"; "}"]%char s (proj1 Pn) eq_refl) as [B1 B2].
     destruct (nqb_atomic _ H3) as [C1 C2].
     unfold head_text, qname.
     replace (id ++ ":" ++ (dq ++ s ++ dq) ++ ":" ++ ty ++ " ") with ((id ++ ":") ++ (dq ++ s ++ dq) ++ (":" ++ ty ++ " "))
